@@ -14,11 +14,24 @@ impl<'a> Data<'a> for ScalarVal<i64> {
     fn cast_scalar_i64(&self) -> i64 {
         self.val
     }
+    // A constant stands for a column that has the same value in every row
+    fn slice_box<'b>(&'b self, from: usize, to: usize) -> BoxedData<'b>
+    where
+        'a: 'b,
+    {
+        Box::new(vec![self.val; to.saturating_sub(from)])
+    }
 }
 
 impl<'a> Data<'a> for ScalarVal<of64> {
     fn cast_scalar_f64(&self) -> of64 {
         self.val
+    }
+    fn slice_box<'b>(&'b self, from: usize, to: usize) -> BoxedData<'b>
+    where
+        'a: 'b,
+    {
+        Box::new(vec![self.val; to.saturating_sub(from)])
     }
 }
 
@@ -32,11 +45,11 @@ impl<'a> Data<'a> for ScalarVal<&'a str> {
     default fn get_type(&self) -> EncodingType {
         EncodingType::ScalarStr
     }
-    default fn slice_box<'b>(&'b self, _: usize, _: usize) -> BoxedData<'b>
+    default fn slice_box<'b>(&'b self, from: usize, to: usize) -> BoxedData<'b>
     where
         'a: 'b,
     {
-        panic!("{}", self.type_error("slice_box"))
+        Box::new(vec![self.val; to.saturating_sub(from)])
     }
     default fn type_error(&self, func_name: &str) -> String {
         format!("Vec<{:?}>.{}", self.get_type(), func_name)
